@@ -87,9 +87,9 @@ func c05Specs(c *Ctx) []connSpec {
 	for _, server := range []bool{true, false} {
 		specs = append(specs,
 			connSpec{Server: server, Utf8: true},
-			connSpec{Server: server, PMD: true, Utf8: true},                                                         // no takeover, threshold 512
-			connSpec{Server: server, PMD: true, SrvTO: true, CliTO: true, SrvBits: 15, CliBits: 15, Utf8: false},     // takeover, threshold forced 0
-			connSpec{Server: server, PMD: true, SrvTO: true, CliTO: true, SrvBits: 9, CliBits: 10, Utf8: true},       // small windows
+			connSpec{Server: server, PMD: true, Utf8: true},                                                             // no takeover, threshold 512
+			connSpec{Server: server, PMD: true, SrvTO: true, CliTO: true, SrvBits: 15, CliBits: 15, Utf8: false},        // takeover, threshold forced 0
+			connSpec{Server: server, PMD: true, SrvTO: true, CliTO: true, SrvBits: 9, CliBits: 10, Utf8: true},          // small windows
 			connSpec{Server: server, PMD: true, SrvTO: true, CliTO: true, peerDenyTO: true, Threshold: 100, Utf8: true}, // peer declines takeover
 			connSpec{Server: server, PMD: true, SrvTO: server, CliTO: !server, SrvBits: 12, CliBits: 12, Threshold: 1, Level: 6},
 			connSpec{Server: server, WLimit: 1000, Utf8: true},
